@@ -74,6 +74,18 @@ from paramiko.server import InteractiveQuery
 from paramiko.ssh_gss import GSSAuth, GSS_EXCEPTIONS
 
 
+def _as_ssh_exception(e):
+    """
+    Failures triggered by peer data are reported as `.SSHException` (or the
+    connection-loss classes); anything else is wrapped, cause preserved.
+    """
+    if isinstance(e, (SSHException, EOFError, OSError)):
+        return e
+    wrapped = SSHException("{}: {}".format(type(e).__name__, e))
+    wrapped.__cause__ = e
+    return wrapped
+
+
 class AuthHandler:
     """
     Internal class to handle the mechanics of authentication.
@@ -820,7 +832,7 @@ Error Message: {}
         )
 
     def _handle_local_gss_failure(self, e):
-        self.transport.saved_exception = e
+        self.transport.saved_exception = _as_ssh_exception(e)
         self._log(DEBUG, "GSSAPI failure: {}".format(e))
         self._log(INFO, "Authentication ({}) failed.".format(self.auth_method))
         self.authenticated = False
@@ -915,7 +927,7 @@ class GssapiWithMicAuthHandler:
                 self.gss_host, client_token, self.auth_username
             )
         except Exception as e:
-            self.transport.saved_exception = e
+            self.transport.saved_exception = _as_ssh_exception(e)
             result = AUTH_FAILED
             self._restore_delegate_auth_handler()
             self._send_auth_result(self.auth_username, self.method, result)
@@ -941,7 +953,7 @@ class GssapiWithMicAuthHandler:
                 mic_token, self.transport.session_id, username
             )
         except Exception as e:
-            self.transport.saved_exception = e
+            self.transport.saved_exception = _as_ssh_exception(e)
             result = AUTH_FAILED
             self._send_auth_result(username, self.method, result)
             raise
